@@ -25,7 +25,10 @@ Case spec (JSON only)
     {"hier": <pbt.usertypes hierarchy spec>, "level": i,
      "vals": {field: expr spec | str}, "embed": null|"sum"|"call"|"kw"|"sub"}   or
     {"compiled": {"expr": spec, "listed": [["name"|"var", n], ...],
-                  "envs": [env spec, ...]}}
+                  "envs": [env spec, ...]}}                                     or
+    {"numeric": ["Polynomial", base spec, [[exponent, coefficient spec], ...]]
+              | ["Rational", num, den]       (num/den: int constant spec or Polynomial)
+              | ["MultiVector", [[blade bits, coefficient spec], ...], dims, own_space]}
     plus "pre_ops": [op, ...], "protocol": 0..5, "nest": null|..., "post_order": int
 """
 from __future__ import annotations
@@ -72,9 +75,10 @@ def case_kind(spec):
     from pbt.spec import HarnessError
     if not isinstance(spec, dict):
         raise HarnessError("case spec must be a dict")
-    keys = [k for k in ("expr", "hier", "compiled") if k in spec]
+    keys = [k for k in ("expr", "hier", "compiled", "numeric") if k in spec]
     if len(keys) != 1:
-        raise HarnessError(f"case spec needs exactly one of expr/hier/compiled: {keys}")
+        raise HarnessError(
+            f"case spec needs exactly one of expr/hier/compiled/numeric: {keys}")
     return keys[0]
 
 
@@ -122,10 +126,74 @@ def compiled_arg_order(c):
     return listed + rest
 
 
+def build_numeric(s, int_coeffs=False):
+    """The library's own legacy number-like node types."""
+    _imports()
+    if not isinstance(s, list) or not s:
+        raise HarnessError(f"bad numeric spec {s!r}")
+    if s[0] == "Polynomial" and len(s) == 3:
+        from pymbolic.polynomial import Polynomial
+        data = []
+        if not isinstance(s[2], list) or not s[2]:
+            raise HarnessError("polynomial needs at least one term")
+        if not (isinstance(s[1], list) and len(s[1]) == 2 and s[1][0] == "Var"):
+            raise HarnessError("polynomial base must be a variable")
+        for t in s[2]:
+            if not (isinstance(t, list) and len(t) == 2 and isinstance(t[0], int)
+                    and not isinstance(t[0], bool) and t[0] >= 0):
+                raise HarnessError(f"bad polynomial term {t!r}")
+            if int_coeffs and not (isinstance(t[1], list) and len(t[1]) == 3
+                                   and t[1][:2] == ["Const", "int"] and t[1][2] != 0):
+                raise HarnessError("rational parts have non-zero integer coefficients")
+            data.append((t[0], build(t[1])))
+        if [e for e, _ in data] != sorted({e for e, _ in data}):
+            raise HarnessError("polynomial exponents must be strictly increasing")
+        return Polynomial(build(s[1]), tuple(data))
+    if s[0] == "Rational" and len(s) == 3:
+        from pymbolic.rational import Rational
+
+        def part(q):
+            if isinstance(q, list) and q and q[0] == "Polynomial":
+                return build_numeric(q, int_coeffs=True)
+            if isinstance(q, list) and len(q) == 3 and q[:2] == ["Const", "int"] \
+                    and isinstance(q[2], int) and not isinstance(q[2], bool):
+                return q[2]
+            raise HarnessError(f"bad rational part {q!r}")
+        num, den = part(s[1]), part(s[2])
+        if isinstance(den, int) and den == 0:
+            raise HarnessError("zero denominator")
+        if not isinstance(den, int) and not den.data:
+            raise HarnessError("zero denominator")
+        return Rational(num, den)
+    if s[0] == "MultiVector" and len(s) == 4:
+        from pymbolic.geometric_algebra import MultiVector, Space, get_euclidean_space
+        dims = s[2]
+        if not isinstance(dims, int) or isinstance(dims, bool) or not 1 <= dims <= 4:
+            raise HarnessError(f"bad dimension {dims!r}")
+        if not isinstance(s[1], list) or not s[1]:
+            raise HarnessError("multivector needs at least one blade")
+        data = {}
+        for t in s[1]:
+            if not (isinstance(t, list) and len(t) == 2 and isinstance(t[0], int)
+                    and not isinstance(t[0], bool) and 0 <= t[0] < 2 ** dims):
+                raise HarnessError(f"bad blade {t!r}")
+            if t[0] in data:
+                raise HarnessError("repeated blade")
+            c = build(t[1])
+            if p.is_zero(c):
+                raise HarnessError("zero coefficient")
+            data[t[0]] = c
+        return MultiVector(data, Space(dims) if s[3] else get_euclidean_space(dims))
+    raise HarnessError(f"bad numeric spec {s!r}")
+
+
 def build_object(spec, variant=None):
     """-> (object to be pickled, expression the pre-operations hash/compare)."""
     _imports()
     kind = case_kind(spec)
+    if kind == "numeric":
+        obj = build_numeric(spec["numeric"])
+        return obj, obj
     if kind == "expr":
         s = spec["expr"]
         if variant == "kwreorder":
@@ -246,7 +314,7 @@ def expr_nodes(obj, _seen=None):
         _seen = set()
     if id(obj) in _seen:
         return
-    if isinstance(obj, p.Expression):
+    if isinstance(obj, p.Expression) or type(obj).__name__ == "MultiVector":
         _seen.add(id(obj))
         yield obj
         for v in list(getattr(obj, "__dict__", {}).values()):
@@ -260,10 +328,17 @@ def expr_nodes(obj, _seen=None):
             yield from expr_nodes(v, _seen)
 
 
-def dict_shape(obj, ignore=("_hash_value",)):
-    """Sorted list of 'Class:attr,attr,...' over the reachable nodes."""
+def is_hash_cache(attr):
+    """Instance attributes in which the library caches a process-local hash."""
+    return attr == "_hash_value" or attr.startswith("_memoize_dic___hash__")
+
+
+def dict_shape(obj):
+    """Sorted list of 'Class:attr,attr,...' over the reachable nodes (hash
+    caches left out: constructors may or may not have hashed)."""
     return sorted({type(n).__name__ + ":" + ",".join(
-        sorted(k for k in n.__dict__ if k not in ignore)) for n in expr_nodes(obj)})
+        sorted(k for k in getattr(n, "__dict__", {}) if not is_hash_cache(k)))
+        for n in expr_nodes(obj)})
 
 
 def digest(obj, channel):
@@ -341,8 +416,8 @@ def produce(spec):
     if not isinstance(proto, int) or not 0 <= proto <= pickle.HIGHEST_PROTOCOL:
         raise HarnessError(f"bad protocol {proto!r}")
     how = spec.get("nest")
-    if kind == "compiled" and how in ("dictkey", "set"):
-        raise HarnessError("compiled expressions are not used as keys")
+    if kind in ("compiled", "numeric") and how in ("dictkey", "set"):
+        raise HarnessError("compiled expressions / number types are not used as keys here")
     try:
         obj, ex = build_object(spec)
     except HarnessError:
@@ -398,9 +473,12 @@ def produce(spec):
         except RecursionError:
             return {"ok": False, "stage": "recursion"}
         except Exception as exc:
+            if kind == "numeric" and isinstance(exc, TypeError) \
+                    and "unhashable" in str(exc):
+                continue        # Polynomial and Rational are unhashable by design
             out["pre_errors"].append([op, site(exc), str(exc)[:300]])
     # was the root really hashed in this process before pickling?
-    out["hashed"] = "_hash_value" in getattr(ex, "__dict__", {})
+    out["hashed"] = any(is_hash_cache(k) for k in getattr(ex, "__dict__", {}))
     try:
         data = pickle.dumps(nest(obj, how), proto)
     except RecursionError:
@@ -413,7 +491,12 @@ def produce(spec):
             out["results"] = compiled_results(obj, spec["compiled"])
             out["hash"] = str(hash(ex))
         else:
-            out["hash"] = str(hash(obj))
+            try:
+                out["hash"] = str(hash(obj))
+            except TypeError:
+                if kind != "numeric":
+                    raise
+                out["hash"] = None
             out["digests"] = digests(obj)
             out["twin_digests"] = digests(build_object(spec)[0])
             if kind == "expr" and n_kw_reorderable(spec["expr"]):
@@ -482,7 +565,7 @@ def consume(spec, data_b64):
     else:
         try:
             stale = sorted({type(n).__name__ for n in expr_nodes(payload)
-                            if "_hash_value" in n.__dict__})
+                            if any(is_hash_cache(k) for k in getattr(n, "__dict__", {}))})
             out["stale"] = stale
             shape_remote = dict_shape(remote)
             out["shape_equal"] = shape_remote == shape_local
@@ -509,14 +592,22 @@ def consume(spec, data_b64):
         po = spec.get("post_order", 0)
         if not isinstance(po, int):
             raise HarnessError("post_order must be an int")
+        hashable = True
+        if kind == "numeric":
+            try:
+                hash(build_object(spec)[0])
+            except TypeError:
+                hashable = False
+        out["hashable"] = hashable
         for g in orders[po % len(orders)]:
-            groups[g]()
+            if hashable or g == "eq":
+                groups[g]()
         if how == "dictkey":
             out["container"] = _obs(lambda: payload.get(local) == "v" and local in payload)
         elif how == "set":
             out["container"] = _obs(lambda: local in payload)
         out["ref_eq"] = _obs(lambda: ref_eq(remote, local))
-        out["hash_local"] = str(hash(local))
+        out["hash_local"] = str(hash(local)) if hashable else None
         out["digests_local"] = digests(build_object(spec)[0])
         out["digests_remote"] = digests(remote)
     except HarnessError:
